@@ -272,7 +272,10 @@ where
     }
 
     fn call(&mut self, req: Req) -> Self::Future {
-        let mut service = self.inner.clone();
+        // `poll_ready` was driven on `self.inner`: that instance takes the call, a fresh
+        // clone is left behind for the next request (Tower readiness contract)
+        let clone = self.inner.clone();
+        let mut service = std::mem::replace(&mut self.inner, clone);
         let config = Arc::clone(&self.config);
         let req_clone = req.clone();
 
